@@ -348,15 +348,25 @@ func (c *Conn) Probe(scn string) (pr ProbeResult) {
 type failAt struct {
 	mu       sync.Mutex // callbacks run on the sender and on the receiver goroutine
 	n, calls int
+	// exc: the callback's error wraps a *ch.Exception of its own (e.g. it ran a query on
+	// another client and passes that query's failure on)
+	exc bool
 }
 
 var errCallback = errors.New("callback-fail")
+
+// errCallbackExc: a callback failure whose chain contains a server exception that has
+// nothing to do with the connection the callback runs on.
+var errCallbackExc = fmt.Errorf("nested query in callback: %w (%w)", &ch.Exception{Code: proto.ErrUnknownTable, Name: "DB::Exception", Message: "from another client"}, errCallback)
 
 func (f *failAt) hit() error {
 	f.mu.Lock()
 	defer f.mu.Unlock()
 	f.calls++
 	if f.n != 0 && f.calls == f.n {
+		if f.exc {
+			return errCallbackExc
+		}
 		return errCallback
 	}
 	return nil
